@@ -10,4 +10,4 @@ PY=/verif/.venv/bin/python
 export PYTHONPATH="$HERE:${VERIF_REPO:-/repo}" PYTHONHASHSEED=0
 m="$1"; t="${2:-quick}"
 shift; [ $# -gt 0 ] && shift
-exec "$PY" -m "checks.$m" --tier "$t" "$@"
+exec "$PY" -m pysym.run "$m" --tier "$t" "$@"
